@@ -32,7 +32,7 @@ def strat_map(with_rot=False):
         def case(draw):
             H = draw(st.integers(60, 200))
             W = draw(st.integers(80, 300))
-            ds = draw(st.sampled_from([1, 2, 3, 4, 8]))
+            ds = draw(st.sampled_from([1, 2, 3, 4, 8, 5, 6, 7]))
             n = draw(st.integers(1, 6))
             ridges = []
             y = draw(st.integers(10, 20))
